@@ -36,26 +36,56 @@ def _us(n):
     return d
 
 
-_STR_US = {'ll_strlen.0': 12, 'll_memcmp.0': 12, 'll_memcpy.0': 12, 'll_memmove.0': 12, 'll_memchr.0': 12}
+_STR_US = {'verif_concretize.0': 20, 'll_strlen.0': 12, 'll_memcmp.0': 12, 'll_memcpy.0': 12, 'll_memmove.0': 12, 'll_memchr.0': 12}
 
-HARNESSES = [
- {'id': 'c09_cond',
-  'property': 'C09',
-  'src': 'c09_cond.cxx',
-  'entry': 'harness_c09_cond',
-  'tus': ['src/cppparser/cppPreprocessor.cxx', 'src/cppparser/cppExpressionParser.cxx', 'src/cppparser/cppExpression.cxx',
-          'src/cppparser/cppDeclaration.cxx', 'src/cppparser/cppFile.cxx', 'src/dtoolutil/filename.cxx'],
-  'skip_ctors': ['cppPreprocessor.cxx'], 'tuflags': ['-fno-inline'],
-  'cut': _COND_CUT + _UNREACHED + [_DISJUNCT], 'models': ['strdisjunct.c'],
-  'desc': 'process_directive / skip_false_if_block / handle_if*_directive over a fully symbolic file of directive lines '
-          '(line-level reader in place of the character level)',
-  'domain': 'every well-nested file of NLINES lines, each line a symbolic choice among 17 kinds: #if 1/0, #ifdef D/U, #ifndef U/D, '
-            '#elif 1/0, #elifdef D/U, #elifndef U/D, #else, #endif, #define X, #error e, text marker',
-  'oracle': 'C11 6.10.1 conditional-stack machine over the same choices: the text lines reaching the driver, and the lines whose '
-            '#define / #error handler runs, are exactly those in kept groups; whole file consumed',
-  'bounds': {'quick': {'defs': {'NLINES': 3}, 'unwind': 10, 'unwindset': _us(4), 'cap': 600},
-             'thorough': {'defs': {'NLINES': 6}, 'unwind': 16, 'unwindset': _us(7), 'cap': 3000}}},
-]
+_GEN = '_ZL3genP15CPPPreprocessoriij'
+
+
+def _cond(level, part, decor=0):
+    """one residue class of the enumeration of well-nested files (see harness/c09_cond.cxx)"""
+    tok = level == 't'
+    if tok:
+        hid = 'c09_cond_t%02d' % part
+        qd = {'NLINES': 3, 'NPARTS': _QT, 'PART': part}
+        td = {'NLINES': 5, 'NPARTS': _TT, 'PART': part}
+        cut = _COND_CUT
+    else:
+        hid = 'c09_chars_d%d_%02d' % (decor, part)
+        qd = {'NLINES': 3, 'NPARTS': _QC, 'PART': part, 'CHARLEVEL': 1, 'DECOR': decor}
+        td = {'NLINES': 4, 'NPARTS': _TC, 'PART': part, 'CHARLEVEL': 1, 'DECOR': decor}
+        cut = _COND_CUT[5:]
+    us = dict(_STR_US)
+    us[_GEN] = 8
+    for f in _REC:
+        us[f] = 8
+    h = {'id': hid, 'property': 'C09', 'src': 'c09_cond.cxx', 'entry': 'harness_c09_cond',
+         'tus': ['src/cppparser/cppPreprocessor.cxx', 'src/cppparser/cppExpressionParser.cxx', 'src/cppparser/cppExpression.cxx',
+                 'src/cppparser/cppDeclaration.cxx', 'src/cppparser/cppFile.cxx', 'src/dtoolutil/filename.cxx'],
+         'skip_ctors': ['cppPreprocessor.cxx'], 'tuflags': ['-fno-inline'],
+         'cut': cut + _UNREACHED + [_DISJUNCT], 'models': ['strdisjunct.c'],
+         'cbmc_flags': ['-D', 'VS_CAP=128'],
+         'desc': ('process_directive / skip_false_if_block / handle_if*_directive over every well-nested file of directive lines; '
+                  + ('line-level reader in place of the character level' if tok else
+                     'real character level (get, skip_whitespace, skip_comment, get_preprocessor_command/args) through the '
+                     'istream byte model, line spelling %d' % decor) + ' (residue class %d)' % part),
+         'domain': 'every well-nested file of NLINES lines whose index is PART mod NPARTS, each line one of 17 kinds: #if 1/0, '
+                   '#ifdef D/U, #ifndef U/D, #elif 1/0, #elifdef D/U, #elifndef U/D, #else, #endif, #define X, #error e, text '
+                   'marker; enumerated by a concrete depth-first loop unrolled inside the query (no symbolic input: symbolic '
+                   'bytes or line kinds make every std::string of the directive parser symbolic-length and symbolic execution '
+                   'does not terminate)' + ('' if tok else '; spelling 0 plain, 1 blanks around # and at line ends, 2 trailing '
+                   '/* # */ comments, 3 trailing // # comments'),
+         'oracle': 'C11 6.10.1 conditional-stack machine over the same file: the text lines reaching the driver, and the lines whose '
+                   '#define / #error handler runs, are exactly those in kept groups; whole file consumed and nothing beyond',
+         'bounds': {'quick': {'defs': qd, 'unwind': 40, 'unwindset': us, 'cap': 600},
+                    'thorough': {'defs': td, 'unwind': 40, 'unwindset': us, 'cap': 3000}}}
+    if (tok and part >= _QT) or (not tok and part >= _QC):
+        h['tiers'] = ('thorough',)
+    return h
+
+
+_QT, _TT = 4, 4
+_QC, _TC = 4, 4
+HARNESSES = [_cond('t', p) for p in range(_TT)]
 
 PROPERTY_INFO = {'C09': {'level': 'model_checking',
          'explanation': 'bounded symbolic execution (CBMC) of the real conditional-inclusion code of cppPreprocessor.cxx',
